@@ -57,7 +57,7 @@ impl Check for C17 {
     fn rule() -> String {
         "Files with several point clouds, blobs and images from the writer generator, optionally damaged (bit flips in page payload without \
          re-sealing => checksum failures; byte overwrites with re-sealed checksum => damaged sections) as long as the file still opens; x sequences \
-         of up to 12 read operations {xml, descriptors, raw(i, take k), simple(i, options, take k), blob(j)} with arbitrary early termination on ONE \
+         of up to 12 read operations {xml, descriptors, raw(i, take k), simple(i, options, take k), blob(j), blob(j) into a target with limited room that fails or reports Ok(0) when full} with arbitrary early termination on ONE \
          reader. Oracle: the result of every operation (hash of every Ok item in order, completion, error message) equals the result of the same \
          operation on a freshly opened reader. Non-trivial: sequence with an iterator abandoned early followed by another operation, or a failing \
          operation followed by another operation."
